@@ -564,6 +564,8 @@ impl World {
             TxDoneCfg::Early => TxDone::Early,
         };
         phy.rx_chunk = s.cfg.rx_chunk_us * self.cfg.baud;
+        phy.tx_lag_max = s.cfg.tx_lag_us * self.cfg.baud;
+        phy.tx_lag_seed = self.cfg.end_us ^ (u64::from(s.cfg.addr) << 32) ^ s.cfg.tx_lag_us;
         if !s.ever_online && !s.cfg.stale_rx.is_empty() {
             phy.preload_rx(&s.cfg.stale_rx);
             self.stats.inc("fault.stale_rx_at_online");
